@@ -1438,3 +1438,50 @@ pub fn nested_loop_program(rng: &mut Rng) -> Program {
     }
     Program { points: vec![0x61, 0x62, 0x63], ops }
 }
+
+/// Programs about the FIRST (and last) character of the members: complements of "starts with x", "is empty",
+/// "ends with x", combined under heads that are nullable (x*, x?, (x+y)*) by concatenation, intersection, union and
+/// complement. Members of such languages often start only with characters of the complementary derivative class.
+pub fn firstchar_program(rng: &mut Rng) -> Program {
+    let (x, y) = (0x61u32, 0x62u32);
+    let mut ops: Vec<Op> = vec![Op::Char(x), Op::Char(y), Op::Eps, Op::Full];
+    // 4: x.Sigma*   5: eps + x.Sigma*   6: not(eps + x.Sigma*)   7: Sigma*.x   8: not(Sigma*.x)   9: not eps
+    ops.push(Op::Concat(0, 3));
+    ops.push(Op::Union(2, 4));
+    ops.push(Op::Comp(5));
+    ops.push(Op::Concat(3, 0));
+    ops.push(Op::Comp(7));
+    ops.push(Op::Comp(2));
+    // heads: 10: x*   11: x?   12: (x+y)*   13: y*
+    ops.push(Op::Star(0));
+    ops.push(Op::Opt(0));
+    ops.push(Op::Union(0, 1));
+    ops.push(Op::Star(12));
+    ops.push(Op::Star(1));
+    let heads = [10usize, 11, 13, 14, 2];
+    let tails = [4usize, 5, 6, 7, 8, 9];
+    let mut pool: Vec<usize> = Vec::new();
+    for _ in 0..(2 + rng.usize(3)) {
+        let h = *rng.pick(&heads);
+        let t = *rng.pick(&tails);
+        ops.push(Op::Concat(h, t));
+        pool.push(ops.len() - 1);
+    }
+    pool.extend_from_slice(&tails);
+    for _ in 0..(3 + rng.usize(5)) {
+        let a = *rng.pick(&pool);
+        let b = *rng.pick(&pool);
+        let op = match rng.below(9) {
+            0 | 1 => Op::Concat(*rng.pick(&heads), a),
+            2 => Op::Concat(a, *rng.pick(&heads)),
+            3 | 4 => Op::Inter(a, b),
+            5 => Op::Union(a, b),
+            6 => Op::Comp(a),
+            7 => Op::Concat(a, b),
+            _ => Op::Diff(a, b),
+        };
+        ops.push(op);
+        pool.push(ops.len() - 1);
+    }
+    Program { points: vec![x, y, 0x63], ops }
+}
